@@ -78,12 +78,13 @@ func (c *countingClient) Status() client.SubResourceWriter {
 
 // env is one simulated cluster holding the stable Ingress (and the optional ConfigMap).
 type env struct {
+	chk  string
 	c    *Case
 	cli  *countingClient
 	conf ingress.Config
 }
 
-func newEnv(c *Case) (*env, error) {
+func newEnv(chk string, c *Case) (*env, error) {
 	objs := []client.Object{c.Stable.DeepCopy()}
 	switch c.ScriptSrc {
 	case "configmap", "configmap-otherkey":
@@ -102,7 +103,7 @@ func newEnv(c *Case) (*env, error) {
 	}
 	cli := &countingClient{Client: fake.NewClientBuilder().WithScheme(scheme).WithObjects(objs...).Build()}
 	ctl := true
-	return &env{c: c, cli: cli, conf: ingress.Config{
+	return &env{chk: chk, c: c, cli: cli, conf: ingress.Config{
 		Key:           ns + "/rollout-demo",
 		Namespace:     ns,
 		CanaryService: c.CanarySvc,
@@ -208,13 +209,22 @@ func (e *env) ensureOnce(fail failFn, s *v1beta1.TrafficRoutingStrategy, where s
 	var done bool
 	var err error
 	strategy := s.DeepCopy() // the manager passes a pointer into its context; the case stays pristine
-	if p, msg := vlib.Guard(func() {
-		var prov network.NetworkProvider
-		if prov, err = e.provider(); err == nil {
-			done, err = prov.EnsureRoutes(context.TODO(), strategy)
+	for attempt := 0; ; attempt++ {
+		if p, msg := vlib.Guard(func() {
+			var prov network.NetworkProvider
+			if prov, err = e.provider(); err == nil {
+				done, err = prov.EnsureRoutes(context.TODO(), strategy)
+			}
+		}); p {
+			fail(panicSig(e.c), "%s: EnsureRoutes panicked: %s", where, stablePanic(msg))
 		}
-	}); p {
-		fail(panicSig(e.c), "%s: EnsureRoutes panicked: %s", where, stablePanic(msg))
+		// the Lua manager gives a script one second of wall-clock time; on an overloaded machine a
+		// stalled process may exceed it. The script runs before any write, so the call is repeated.
+		if err != nil && attempt < 20 && strings.Contains(err.Error(), "context deadline exceeded") {
+			vlib.Note(e.chk, "Lua wall-clock timeout hit (machine overloaded); call repeated")
+			continue
+		}
+		break
 	}
 	if err != nil {
 		fail(errorSig(e.c, err), "%s: EnsureRoutes failed: %v", where, err)
@@ -302,7 +312,7 @@ func historySig(class string, keys []string) string {
 
 func runC14(t vlib.TB, c *Case) {
 	fail := func(sig, format string, args ...any) { vlib.Fail(t, chkC14, sig, c, format, args...) }
-	e, err := newEnv(c)
+	e, err := newEnv(chkC14, c)
 	if err != nil {
 		t.Fatalf("harness: %v", err)
 	}
@@ -331,7 +341,7 @@ func runC14(t vlib.TB, c *Case) {
 		}
 		// (2) history independence: same stable Ingress, same class, only this step
 		if k > 0 {
-			f, err := newEnv(c)
+			f, err := newEnv(chkC14, c)
 			if err != nil {
 				t.Fatalf("harness: %v", err)
 			}
